@@ -47,6 +47,8 @@ thread_local! {
     static UNWRITTEN: Cell<usize> = const { Cell::new(0) };
     static TOTAL: Cell<usize> = const { Cell::new(0) };
     static STATE: RefCell<Option<Rc<RefCell<SystemState>>>> = const { RefCell::new(None) };
+    /// probe calls in the current run (a shell that re-executes its input for ever is cut off)
+    static PROBES: Cell<usize> = const { Cell::new(0) };
 }
 
 /// Number of bytes consumed so far from the shell's standard input.
@@ -71,6 +73,10 @@ fn probe_main(env: &mut VEnv, args: Vec<Field>) -> BuiltinFuture<'_> {
     let fields: Vec<String> = args.iter().map(|f| enc_str(&f.value)).collect();
     let st = env.exit_status.0;
     let off = stdin_offset(env);
+    PROBES.set(PROBES.get() + 1);
+    if PROBES.get() > 5000 {
+        panic!("runaway: more than 5000 probe calls in one run");
+    }
     Box::pin(async move {
         let text = format!("{}:{}@{}\n", st, fields.join(","), off);
         match env.system.write_all(Fd::STDOUT, text.as_bytes()).await {
@@ -103,6 +109,7 @@ fn run_feed(script: &[u8], data: &[u8], feed: &Feed) -> Outcome {
         cfg,
         move |env, state| {
             STATE.with(|s| *s.borrow_mut() = Some(Rc::clone(state)));
+            PROBES.set(0);
             env.builtins.insert("probe", Builtin::new(Type::Mandatory, probe_main));
             env.builtins.insert("a1", Builtin::new(Type::Mandatory, a1_main));
             env.builtins.insert("a2", Builtin::new(Type::Mandatory, a2_main));
